@@ -86,7 +86,7 @@ where
 fn pw_leaf<T>(ends: &[f64], cx: &mut Cx) -> Verdict
 where
     T: Nums + HasDerivative + Copy,
-    Der<T>: Nums,
+    Der<T>: Nums + Evaluate + Translate,
 {
     let pw: Piecewise<T> = Piecewise {
         segments: ends
@@ -95,7 +95,18 @@ where
             .map(|(i, &e)| Segment { end: e, poly: T::from_nums(&LANE_ID.iter().map(|v| v * ((i % 17) as f64 + 1.0) + 0.25 * (i % 5) as f64).collect::<Vec<_>>()) })
             .collect(),
     };
-    let detail = |obs: serde_json::Value| json!({"ends": fjs(ends), "piece_type": T::NAME, "observation": obs});
+    pw_structure(&pw, cx)
+}
+
+/// Piecewise::derivative against the pieces' own derivatives: number of pieces, every end and every number on bits
+fn pw_structure<T>(pw: &Piecewise<T>, cx: &mut Cx) -> Verdict
+where
+    T: Nums + HasDerivative + Copy,
+    Der<T>: Nums + Evaluate + Translate,
+{
+    let ends: Vec<f64> = pw.segments.iter().map(|s| s.end).collect();
+    let ends = &ends[..];
+    let detail = |obs: serde_json::Value| json!({"ends": fjs(ends), "piece_type": T::NAME, "pieces": pw.segments.iter().map(|s| fjs(&s.poly.nums())).collect::<Vec<_>>(), "observation": obs});
     let r = guard(|| pw.derivative());
     cx.evals(1);
     let d = match r {
@@ -176,6 +187,19 @@ pub fn check(thorough: bool, _seed: u64) -> Check {
         e[n - 1] = e[n - 2];
         sh.push(e);
     }
+    // "all piecewise functions": end lists in any order and with NaN / infinite ends must come back bit-identical too
+    for len in 2..=4usize {
+        for code in 0..3usize.pow(len as u32) {
+            let e: Vec<f64> = (0..len).map(|i| [1.0, 2.0, 3.0][(code / 3usize.pow(i as u32)) % 3]).collect();
+            if e.windows(2).any(|w| w[0] > w[1]) {
+                sh.push(e);
+            }
+        }
+    }
+    sh.push(vec![0.6947, 0.6844, 0.7268]);
+    sh.push(vec![1.0, f64::NAN, 0.5]);
+    sh.push(vec![f64::from_bits(0x7ff8_0000_0000_0001), f64::INFINITY, f64::NEG_INFINITY, 1.0]);
+    sh.push((0..12).map(|i| ((i * 7) % 12) as f64).collect());
     let ns = sh.len();
     let sh = Arc::new(sh);
     let piecewise = Phase {
@@ -203,13 +227,90 @@ pub fn check(thorough: bool, _seed: u64) -> Check {
             }
         }),
         classes: vec![],
-        bounds: json!({"shapes": "end lists of length 1..4 over {1..4}, 1..3 over {-MAX,-0.0,+0.0,5e-324,+inf}, 1..n for every n up to 1650 (3300 thorough) and n = 32768, 65537, 70003, n=6,9,17 also with duplicate runs; lists over {1,succ(1),succ(succ(1)),2}, [0.3, 0.1+0.2, 1], [-1,succ(-1),5e-324,1e-323]", "piece_types": "Poly0..Poly8"}),
+        bounds: json!({"shapes": "end lists of length 1..4 over {1..4}, 1..3 over {-MAX,-0.0,+0.0,5e-324,+inf}, 1..n for every n up to 1650 (3300 thorough) and n = 32768, 65537, 70003, n=6,9,17 also with duplicate runs; lists over {1,succ(1),succ(succ(1)),2}, [0.3, 0.1+0.2, 1], [-1,succ(-1),5e-324,1e-323]; every list of length 2..4 over {1,2,3} with a descent, a shuffled list of 12, lists with NaN (two payloads) and infinite ends", "piece_types": "Poly0..Poly8"}),
+    };
+    // adjacent pieces that are smooth across their breakpoint up to rounding: the values / slopes of the two derivative pieces at
+    // the shared breakpoint agree to a few ulps .. 1e-9 relative without being bit-equal (what spline output and rounded data
+    // look like). The derivative of a piecewise function is still each piece's own derivative, untouched.
+    let smooth = Phase {
+        name: "nearly-smooth-adjacent-pieces",
+        units: 4,
+        split: 1,
+        body: Box::new(move |unit, cx| {
+            cx.nontrivial();
+            match unit {
+                // family: every piece is a copy of one cubic / quartic re-centred nowhere, with one coefficient off by a relative delta
+                0 | 1 => {
+                    const DELTA: [f64; 9] = [0.0, 2.220446049250313e-16, -2.220446049250313e-16, 1e-15, 4e-10, -7e-10, 1e-12, 3e-9, 1e-6];
+                    let np = 2 + cx.choose(if thorough { 4 } else { 3 });
+                    let lane_n = if unit == 0 { 4 } else { 5 };
+                    let basec: Vec<f64> = [0.001, 0.3, -0.7, 0.11, 0.013][..lane_n].to_vec();
+                    let mut segs = vec![];
+                    let mut cur = basec.clone();
+                    for i in 0..np {
+                        if i > 0 {
+                            let lane = cx.choose(lane_n);
+                            cur[lane] *= 1.0 + DELTA[cx.choose(DELTA.len())];
+                        }
+                        segs.push((0.5 + i as f64 * [1.0, 0.25, 3.0][i % 3], cur.clone()));
+                    }
+                    if cx.sampling() {
+                        cx.sample(json!({"pieces": segs.iter().map(|(e, c)| json!({"end": e, "coefficients": c})).collect::<Vec<_>>()}));
+                    }
+                    if unit == 0 {
+                        pw_structure(&Piecewise { segments: segs.iter().map(|(e, c)| Segment { end: *e, poly: Poly3::from_nums(c) }).collect() }, cx)
+                    } else {
+                        pw_structure(&Piecewise { segments: segs.iter().map(|(e, c)| Segment { end: *e, poly: Poly4::from_nums(c) }).collect() }, cx)
+                    }
+                }
+                // the library's own curves: constrained_spline (C1 up to rounding) and linear (C0), and the spline's derivative again
+                _ => {
+                    const YS: [f64; 6] = [0.0, 1.0, 0.5, 2.0, 0.1 + 0.2, -1.5];
+                    const XSTEP: [f64; 4] = [1.0, 0.1, 0.3, 2.5];
+                    let nk = 3 + cx.choose(if thorough { 4 } else { 3 });
+                    let mut x = [0.0, 0.7, -3.0][cx.choose(3)];
+                    let mut ks = vec![];
+                    for _ in 0..nk {
+                        ks.push(Knot { x, y: YS[cx.choose(YS.len())] });
+                        x += XSTEP[cx.choose(if thorough { 4 } else { 2 })];
+                    }
+                    if cx.sampling() {
+                        cx.sample(json!({"knots": ks.iter().map(|k| json!([k.x, k.y])).collect::<Vec<_>>()}));
+                    }
+                    if unit == 2 {
+                        let sp = match guard(|| constrained_spline(&ks)) {
+                            Ok(s) => s,
+                            Err(_) => return Ok(()), // construction is C04's business
+                        };
+                        if sp.segments.iter().any(|s| s.poly.nums().iter().any(|v| !v.is_finite())) {
+                            return Ok(());
+                        }
+                        pw_structure(&sp, cx)?;
+                        let d1 = match guard(|| sp.derivative()) {
+                            Ok(d) => d,
+                            Err(pn) => return Err(Fail::new(format!("Piecewise::derivative panicked: {pn}"), json!({"knots": ks.iter().map(|k| json!([fj(k.x), fj(k.y)])).collect::<Vec<_>>()}))),
+                        };
+                        pw_structure(&d1, cx)
+                    } else {
+                        let li = match guard(|| linear(&ks)) {
+                            Ok(s) => s,
+                            Err(_) => return Ok(()),
+                        };
+                        pw_structure(&li, cx)
+                    }
+                }
+            }
+        }),
+        classes: vec![],
+        bounds: json!({"families": "2..4 (5 thorough) pieces of Poly3 / Poly4, each piece the previous one with one coefficient (every lane) scaled by 1+d, d in {0, +-1ulp, 1e-15, 4e-10, -7e-10, 1e-12, 3e-9, 1e-6}",
+            "library curves": "constrained_spline and linear on 3..5 (6 thorough) knots (3 origins, steps {1,0.1} (+{0.3,2.5} thorough), ordinates over {0,1,0.5,2,0.1+0.2,-1.5}); the spline's derivative differentiated again",
+            "comparison": "number of pieces, every end and every number of every piece on bits against the piece's own derivative()"}),
     };
     Check {
         id: "C08",
         rule: "choice tree: degree unit x one coefficient per lane, and shape unit x piece type; each leaf runs the real derivative() (form, Segment, Piecewise) and evaluates the result; non-trivial = >=2 non-zero non-constant coefficients, resp. >=2 pieces".into(),
         assumptions: vec![],
-        phases: vec![coeffs, piecewise],
+        phases: vec![coeffs, piecewise, smooth],
         extra: Default::default(),
         controls: vec![],
     }
